@@ -586,6 +586,8 @@ func c14Cache(c *Ctx) {
 		c.Check(len(aged) >= 1, "C14-R3", "queryCache.gc:age test found", gc.Decl.Pos(), itoa(len(aged))+" aged field(s)", "no now.Sub(entry.field) staleness test found")
 	}
 
+	cacheExpiryWriters(c, "C14-R3")
+
 	// CacheKey coverage
 	qt := p.LookupType("internal/promapi", "querier")
 	if qt == nil {
